@@ -279,7 +279,8 @@ def run(ctx):
                           {'world': [list(arg[0][0]), list(arg[0][1])] + list(arg[1:]), 'trace': [list(t) for t in tr]})
     ctx.cov.update({
         'states': tot['states'], 'transitions': tot['transitions'], 'traces_validated_against_impl': tot['transitions'],
-        'samples': [{'world': ws[0][:5], 'attempts': [['spend', 3, 1], ['spend', 1, 0]]}],
+        'samples': [{'world': ws[0][:5], 'attempts_offered_at_every_state': attempt_alphabet(sum(ws[0][0][0]) + sum(ws[0][0][1]), False)[:6]},
+                    {'world_with_delayed_confirmations': dws[0][:3], 'operations': ['spend(smallest output)', 'spend(everything available)', 'confirm(0)']}],
         'worlds': len(ws), 'successful_spends': tot['success'], 'insufficient_reports': tot['insufficient'],
         'confirmations': tot['confirmed'], 'exhaustive': True,
         'rule': "worlds = every assignment of <= %d outputs of value 1/2/5 to two wallet keys x foreign output x 10-coin reward "
